@@ -100,7 +100,7 @@ func genL4(r *rng.R) *l4Case {
 	case "get":
 		c.Dests = r.Pick([]string{"valid", "valid", "valid", "invalid", "none", "outcome+valid", "niloutcome+valid", "outcome", "outcome+invalid"})
 	case "getall":
-		c.Dests = r.Pick([]string{"valid", "valid", "valid", "invalid", "none"})
+		c.Dests = r.Pick([]string{"valid", "valid", "validptr", "validcap", "invalid", "none"})
 	case "iter":
 		n := 1 + r.Intn(8)
 		for i := 0; i < n; i++ {
@@ -384,17 +384,37 @@ func runL4Case(c *l4Case) (obs *l4Obs) {
 		}
 	case "getall":
 		rows := []Row{{A: 100, B: "prior"}}
+		prows := []*Row{{A: 100, B: "prior"}}
+		if c.Dests == "validcap" {
+			// spare capacity: the hidden part of the backing array may be written, the
+			// visible slice must not change on error
+			rows = make([]Row, 1, 8)
+			rows[0] = Row{A: 100, B: "prior"}
+		}
 		var args []any
 		switch c.Dests {
-		case "valid":
+		case "valid", "validcap":
 			args = []any{&rows}
+		case "validptr":
+			args = []any{&prows}
 		case "invalid":
 			args = []any{&[]Unrelated{}}
 		}
 		obs.Returns = append(obs.Returns, errText(qr.GetAll(args...)))
-		obs.Prior = len(rows) >= 1 && rows[0] == Row{A: 100, B: "prior"}
-		for _, r := range rows[1:] {
-			obs.Appended = append(obs.Appended, r.A)
+		if c.Dests == "validptr" {
+			obs.Prior = len(prows) >= 1 && prows[0] != nil && *prows[0] == Row{A: 100, B: "prior"}
+			for _, r := range prows[1:] {
+				if r == nil {
+					obs.Appended = append(obs.Appended, -1)
+				} else {
+					obs.Appended = append(obs.Appended, r.A)
+				}
+			}
+		} else {
+			obs.Prior = len(rows) >= 1 && rows[0] == Row{A: 100, B: "prior"}
+			for _, r := range rows[1:] {
+				obs.Appended = append(obs.Appended, r.A)
+			}
 		}
 	case "iter":
 		it := qr.Iter()
